@@ -526,3 +526,16 @@ package tubes
 //@   ensures old(r.tubeState) != tubes.created ==> r.tubeState == old(r.tubeState) && err == nil && !called(tubes.sender.recvAck)
 //@   ensures called(tubes.initiateFrame.toBytes) <==> (pkt.flags.REQ && r.tubeState != tubes.closed)
 //@   ensures called(tubes.initiateFrame.toBytes) ==> callcount(tubes.initiateFrame.toBytes) == 1 && respID == r.id && respType == r.tType && respFlagsOK
+//@ func (u *Unreliable) makeInitFrame(req bool) (f initiateFrame)
+//@   inline
+// ... and of an unreliable tube: a REQ is answered by ONE initiate frame that is a RESP, NOT reliable, with this tube's
+// own id and type; nothing is sent for a frame that is not a REQ.
+//@ func (u *Unreliable) receiveInitiatePkt(pkt *initiateFrame) (err error)
+//@   property C09
+//@   atomic
+//@   after tubes.initiateFrame.toBytes let uRespID = argof(tubes.initiateFrame.toBytes, p).tubeID
+//@   after tubes.initiateFrame.toBytes let uRespType = argof(tubes.initiateFrame.toBytes, p).tubeType
+//@   after tubes.initiateFrame.toBytes let uRespFlagsOK = argof(tubes.initiateFrame.toBytes, p).flags.RESP && !argof(tubes.initiateFrame.toBytes, p).flags.REQ && !argof(tubes.initiateFrame.toBytes, p).flags.REL && !argof(tubes.initiateFrame.toBytes, p).flags.FIN
+//@   ensures err == nil
+//@   ensures !pkt.flags.REQ ==> !called(tubes.initiateFrame.toBytes)
+//@   ensures called(tubes.initiateFrame.toBytes) ==> callcount(tubes.initiateFrame.toBytes) == 1 && uRespID == u.id && uRespType == u.tType && uRespFlagsOK
